@@ -619,15 +619,21 @@ func c05SeekChain(w *World, r *Report) {
 				}
 			} else if mc, isMC := f3.canon(cv).(*ssa.MakeClosure); isMC {
 				sel, _ = mc.Fn.(*ssa.Function)
+			} else if lf, isF := cv.(*ssa.Function); isF && lf.Parent() != nil {
+				sel = lf
 			}
 			okSel := false
-			if sel != nil && len(call.Call.Args) == 1 && call.Call.Args[0] == pchV {
+			applied := sel != nil && len(call.Call.Args) == 0 && len(sel.Params) == 0 // a literal applied on the spot: the channel is captured
+			if sel != nil && ((len(call.Call.Args) == 1 && call.Call.Args[0] == pchV) || applied) {
 				// the selector returns an element of the seekPositions parameter whose ChannelName equals its argument
 				// (a hand-written loop, or lo.Find(seekPositions, func(p) bool { return p.ChannelName == channelName }))
 				cmp, fromParam := false, false
 				isSelArg := func(v ssa.Value) bool {
 					for _, x := range backSlice(v, SliceOpts{MaxDepth: 4}) {
-						if x == ssa.Value(sel.Params[0]) {
+						if !applied && x == ssa.Value(sel.Params[0]) {
+							return true
+						}
+						if applied && (x == pchV || w.accessPath(x) == w.accessPath(pchV)) {
 							return true
 						}
 					}
